@@ -57,26 +57,26 @@ StateOf(l, t) == CASE l = 0 -> "Unset" [] l = 1 -> "Done" [] l > t -> "Waiting" 
 
 (* __check_auth --------------------------------------------------------------*)
 Bad(L) == [ok |-> FALSE, led |-> L]
-RECURSIVE ImplRun(_, _, _, _, _, _)
-ImplRun(L, ctxs, metas, xauth, t, i) ==
+RECURSIVE ImplRun(_, _, _, _, _, _, _)
+ImplRun(L, ctxs, metas, xauth, xskip, t, i) ==
   IF i > Len(ctxs) \/ i > Len(metas) THEN [ok |-> TRUE, led |-> L]       \* zip stops at the shorter
   ELSE LET k == ctxs[i]  d == metas[i] IN
        IF k = "create" THEN Bad(L)                                        \* not a contract context
        ELSE IF k \notin AdminCalls THEN Bad(L)                            \* contract # current contract
-       ELSE IF ExecCount # 0 /\ ~(d.exec # "none" /\ Has(d.exec, "executor") /\ d.exec \in xauth /\ d.exec \notin Deny)
+       ELSE IF ExecCount # 0 /\ ~(d.exec # "none" /\ Has(d.exec, "executor") /\ d.exec \in xauth /\ i # xskip /\ d.exec \notin Deny)
             THEN Bad(L)
        ELSE LET i0 == OpForTab(k, d) IN
             IF i0 = NoOp \/ StateOf(L[i0], t) # "Ready" THEN Bad(L)        \* an id nobody scheduled is Unset
             ELSE IF OpTab[i0].pred # "none" /\ L[OpTab[i0].pred] # 1 THEN Bad(L)
-            ELSE ImplRun([L EXCEPT ![i0] = 1], ctxs, metas, xauth, t, i + 1)
+            ELSE ImplRun([L EXCEPT ![i0] = 1], ctxs, metas, xauth, xskip, t, i + 1)
 
-ImplCheckAuth(ctxs, metas, xauth, t) ==
-  IF ~BUG_C09_ZIP /\ Len(metas) # Len(ctxs) THEN Bad(led) ELSE ImplRun(led, ctxs, metas, xauth, t, 1)
+ImplCheckAuth(ctxs, metas, xauth, xskip, t) ==
+  IF ~BUG_C09_ZIP /\ Len(metas) # Len(ctxs) THEN Bad(led) ELSE ImplRun(led, ctxs, metas, xauth, xskip, t, 1)
 
 (* entry points --------------------------------------------------------------*)
 \* the controller's require_auth(): an entry for its address must be attached (its root is this
 \* very invocation), then __check_auth decides
-SelfAuth(o, t) == IF o.entry THEN ImplCheckAuth(CtxsOf(o), o.metas, o.xauth, t) ELSE Bad(led)
+SelfAuth(o, t) == IF o.entry THEN ImplCheckAuth(CtxsOf(o), o.metas, o.xauth, o.xskip, t) ELSE Bad(led)
 
 AdminOk(o, t) ==
   LET k == o.call  ca == SelfAuth(o, t) IN
@@ -99,13 +99,13 @@ ImplOk(o, t) ==
                             /\ (OpTab[o.id].pred = "none" \/ led[OpTab[o.id].pred] = 1)
                             /\ OpTab[o.id].call = "ext"      \* a call back into the controller is a re-entry
     [] o.op = "admin"    -> AdminOk(o, t)
-    [] o.op = "chk"      -> ImplCheckAuth(o.ctxs, o.metas, o.xauth, t).ok
+    [] o.op = "chk"      -> ImplCheckAuth(o.ctxs, o.metas, o.xauth, o.xskip, t).ok
 
 ImplEffect(o, t) ==
   CASE o.op = "schedule" -> led' = [led EXCEPT ![o.id] = t + o.delay] /\ UNCHANGED <<minD, roles, admin, pend, radm>>
     [] o.op = "cancel"   -> led' = [led EXCEPT ![o.id] = 0] /\ UNCHANGED <<minD, roles, admin, pend, radm>>
     [] o.op = "execute"  -> led' = [led EXCEPT ![o.id] = 1] /\ UNCHANGED <<minD, roles, admin, pend, radm>>
-    [] o.op = "chk"      -> led' = ImplCheckAuth(o.ctxs, o.metas, o.xauth, t).led /\ UNCHANGED <<minD, roles, admin, pend, radm>>
+    [] o.op = "chk"      -> led' = ImplCheckAuth(o.ctxs, o.metas, o.xauth, o.xskip, t).led /\ UNCHANGED <<minD, roles, admin, pend, radm>>
     [] o.op = "admin"    ->
          LET k == o.call IN
          /\ led' = SelfAuth(o, t).led
@@ -126,7 +126,7 @@ XMenu == [none |-> {}, x |-> {"x"}, n |-> {"n"}, s |-> {"s"}, xns |-> {"x", "n",
 Descs == [pred : DPreds, salt : DSalts, exec : DExecs]
 MetaSets == (IF 0 \in MetaLens THEN {<<>>} ELSE {}) \cup UNION {[1..n -> Descs] : n \in MetaLens \ {0}}
 Blank == [op |-> "none", id |-> "none", call |-> "none", who |-> "none", auth |-> FALSE, delay |-> 0, entry |-> FALSE,
-          metas |-> <<>>, sub |-> "none", ctxs |-> <<>>, xauth |-> {}]
+          metas |-> <<>>, sub |-> "none", ctxs |-> <<>>, xauth |-> {}, xskip |-> 0]
 
 Ops ==
   {[Blank EXCEPT !.op = "schedule", !.id = i, !.who = w, !.auth = a, !.delay = d] :
@@ -136,6 +136,9 @@ Ops ==
   \cup {[Blank EXCEPT !.op = "admin", !.call = k, !.entry = en, !.metas = ms, !.sub = sb, !.xauth = XMenu[xa]] :
       k \in Calls, en \in Entries, ms \in MetaSets, sb \in Subs, xa \in XAuths}
   \cup {[Blank EXCEPT !.op = "chk", !.ctxs = CtxMenu[cs], !.metas = ms, !.xauth = XMenu[xa]] : cs \in ChkCtxs, ms \in MetaSets, xa \in XAuths}
+  \* the executor's entry for the second (context, descriptor) pair left out
+  \cup {[Blank EXCEPT !.op = "chk", !.ctxs = CtxMenu[cs], !.metas = ms, !.xauth = XMenu[xa], !.xskip = 2] :
+          cs \in {c \in ChkCtxs : Len(CtxMenu[c]) >= 2}, ms \in {m \in MetaSets : Len(m) >= 2}, xa \in XAuths \ {"none"}}
 
 Init == /\ led = [i \in Names |-> 0] /\ minD = Min0 /\ roles = Roles0 /\ admin = "c" /\ pend = "none"
         /\ radm = [r \in Roles |-> "none"] /\ now = Now0
